@@ -38,8 +38,14 @@ def run(model, rep, tier):
     fn = ci.methods.get('losstensors')
     if fn is None:
         raise AnalysisError('anchor vanished: Interstitial.losstensors')
-    from .C02 import _assembly
-    _assembly(model, rep, oc, ci)
+    from .C02 import _assembly, _groups, I_, J_
+    from ..model import AnalysisError as _AE
+    try:
+        _assembly(model, rep, oc, ci)
+    except _AE as e:
+        if getattr(rep, 'strict', True):
+            raise
+        rep.undecided('%s (sibling comparison of the three assembly loops)' % e)
     q = 'Interstitial.losstensors'
     # ---- the matrix handed to the eigen-solver
     eig = [a for a in fn.body if isinstance(a, ast.Assign) and isinstance(a.value, ast.Call) and (dotted(a.value.func) or '').split('.')[-1] in ('eigh', 'eig', 'eigvalsh', 'eigvals')]
@@ -58,6 +64,22 @@ def run(model, rep, tier):
     last_acc = max([top(a) for a in acc] or [-1])
     touched = [s for s in ast.walk(fn) if isinstance(s, (ast.Assign, ast.AugAssign)) and s not in acc and last_acc < top(s) <= top(eig[0]) and s is not eig[0]
                and any(isinstance(t, ast.Subscript) and unparse(t.value) in mats for t in (s.targets if isinstance(s, ast.Assign) else [s.target]))]
+    # the accumulations into that matrix are, by provenance, the ones of diffusivity's rate matrix
+    try:
+        gl, _, _ = _groups(fn)
+        gd, _, _ = _groups(ci.methods['diffusivity'])
+        ref = [v for v in gd.values() if any(t.startswith('_ACC[(%s, %s,)]' % (I_, J_)) for t in v) and len(v) == 2
+               and all('Mult' not in t.split('= ', 1)[1] and '*' not in t.split('= ', 1)[1] for t in v)]
+        mine = [v for k, v in gl.items() if k in mats]
+        if ref and mine:
+            same = mine[0] in ref
+            rep.ob('sibling-assembly', oc, acc[0] if acc else eig[0], 'losstensors: the matrix handed to the eigen-solver is accumulated as %s' % sorted(mine[0]),
+                   same, '' if same else 'the matrix that is diagonalised is not built like the symmetrised rate matrix of diffusivity '
+                   '([i,j] += symmetrised rate, [i,i] -= escape rate): %s' % sorted(ref[0]), engine='siblings', qual=q)
+        else:
+            rep.undecided('losstensors: accumulations into the diagonalised matrix not located by provenance')
+    except _AE as e:
+        rep.undecided(str(e))
     ok = solver.endswith('.eigh') and len(acc) == 2 and not touched
     rep.ob('symmetric-eigensolver', oc, eig[0], '%s <- %s(%s); %s filled by %d accumulation(s) in the jump loop, untouched afterwards'
            % ((lam, phi), solver, mat, mat, len(acc)), ok,
